@@ -1,5 +1,6 @@
 """Task registry, obligation bookkeeping, runner, evidence, known findings, replay dispatch."""
 import hashlib
+import re
 import importlib
 import json
 import multiprocessing as mp
@@ -33,9 +34,9 @@ def task(prop, name, strength='U', tier='quick', **kwargs):
     return deco
 
 
-def add_task(prop, name, fn, strength='U', tier='quick', **kwargs):
+def add_task(prop, task_name, fn, strength="U", tier="quick", **kwargs):
     for p in ([prop] if isinstance(prop, str) else prop):
-        TASKS.append(Task(p, name, fn, strength, tier, kwargs))
+        TASKS.append(Task(p, task_name, fn, strength, tier, kwargs))
 
 
 class T:
@@ -61,6 +62,7 @@ class T:
 
     def prove(self, label, hyps, goal, replay=None, strength=None, timeout_ms=None, note=''):
         from . import backends
+        hyps = list(hyps) + auto_axioms(list(hyps) + [goal])
         st, m, s, b = backends.prove(hyps, goal, timeout_ms or self.budget_ms)
         self.record(label, st, strength, s, b, m, replay if st == 'failed' else None, note)
         return st, m
@@ -83,6 +85,22 @@ class T:
 
     def ok(self, label, note='', strength=None, backend='exec'):
         self.record(label, 'proved', strength, 0.0, backend, note=note)
+
+
+def auto_axioms(fmls):
+    """instances of the exp/log axioms for every exp(.)/log(.) term occurring in `fmls`"""
+    import z3
+    from .diff import exp_terms_of, log_terms_of
+    from .sym import exp_axioms, log_axioms, EXP
+    big = z3.And(*fmls) if len(fmls) > 1 else fmls[0]
+    et, lt = exp_terms_of(big), log_terms_of(big)
+    ax = []
+    if et:
+        ax += [EXP(t) > 0 for t in et] + exp_axioms(et)
+    if lt:
+        ax += log_axioms(lt)
+        # exp(log t) introduces new exp terms: positivity only
+    return ax
 
 
 # ----------------------------------------------------------------------------- worker
@@ -128,8 +146,10 @@ def load_known():
 
 
 def match_known(res, known):
+    """a finding is keyed by the obligation name without its path / pattern suffixes"""
+    fam = _family(res['name'])
     for k in known:
-        if k['prop'] == res['prop'] and k['obligation'] == res['name']:
+        if k['prop'] == res['prop'] and k['obligation'] == fam:
             return k
     return None
 
@@ -217,21 +237,41 @@ def finish(prop, tier, seed, results, task_secs, t_start):
 
     lines = []
     vio_records = []
+    # one replay per failed obligation *family* (name without path / csc-pattern suffix), at most MAX_REPLAY
+    # families are replayed natively (in parallel); the other failures of a family share its replay file
+    from concurrent.futures import ThreadPoolExecutor
+    fam = {}
     for r in violations:
-        h = hashlib.sha1(r['name'].encode()).hexdigest()[:10]
+        fam.setdefault(_family(r['name']), []).append(r)
+    jobs = []
+    head = _repo_head()
+    for k, (fname, rs) in enumerate(sorted(fam.items())):
+        rs.sort(key=lambda r: (r['replay'] is None, len(str(r['model']))))
+        r = rs[0]
+        h = hashlib.sha1(fname.encode()).hexdigest()[:10]
         path = os.path.join(ROOT, 'replays', f'{prop}_{h}.json')
         rec = dict(property=prop, obligation=r['name'], solver_output=dict(status='sat', backend=r['backend'], model=r['model']),
-                   replay=r['replay'], note=r['note'], repo_head=_repo_head())
+                   replay=r['replay'], note=r['note'], repo_head=head,
+                   also_failed=[dict(obligation=x['name'], model=x['model'], note=x['note'][:300]) for x in rs[1:40]])
         json.dump(rec, open(path, 'w'), indent=1, default=str)
-        confirmed, txt = (None, 'no replay harness for this obligation')
-        if r['replay']:
-            confirmed, txt = run_replay(path)
+        jobs.append((fname, rs, path, rec))
+    max_replay = int(os.environ.get('VERIF_MAX_REPLAY', '12'))
+
+    def _do(job):
+        fname, rs, path, rec = job
+        if rec['replay']:
+            return run_replay(path)
+        return None, 'no replay harness for this obligation'
+    with ThreadPoolExecutor(8) as ex:
+        outs = list(ex.map(_do, jobs[:max_replay])) + [(None, 'not replayed (replay budget)')] * max(0, len(jobs) - max_replay)
+    for (fname, rs, path, rec), (confirmed, txt) in zip(jobs, outs):
         rec['replay_result'] = dict(confirmed=confirmed, output=txt)
         json.dump(rec, open(path, 'w'), indent=1, default=str)
         tail = '' if confirmed else ' no-failing-input-found'
         lines.append(f'VIOLATION property={prop} replay={path}{tail}')
-        vio_records.append(dict(obligation=r['name'], replay=path, confirmed=bool(confirmed)))
-        print(f'  failed obligation: {r["name"]}  model={_short(r["model"])}  {r["note"][:200]}')
+        vio_records.append(dict(obligation=fname, failed=len(rs), replay=path, confirmed=bool(confirmed)))
+        r = rs[0]
+        print(f'  failed obligation: {r["name"]} (+{len(rs) - 1} of the same family)  model={_short(r["model"])}  {r["note"][:200]}')
     for r, k in known_hits:
         print(f'KNOWN-FINDING: property={prop} {r["name"]} :: {k["what"]}')
     for ln in lines:
@@ -260,6 +300,8 @@ def finish(prop, tier, seed, results, task_secs, t_start):
                for r in (obl[:4] + bnd[:3] + failed[:3])]
     kf_obl = [r for r, _ in known_hits]
     level = info.get('level', 'proof')
+    if level == 'proof' and n_obl == 0:
+        level = 'other'     # nothing unbounded was proved by this run: do not call it a proof
     cov = dict(
         obligations=n_obl - sum(1 for r in kf_obl if r['strength'] == 'U'),
         discharged=n_dis,
@@ -280,7 +322,7 @@ def finish(prop, tier, seed, results, task_secs, t_start):
         rule='one evaluation = one named obligation (path x case) sent to an SMT back end or decided by execution; distinct = distinct obligation names',
         samples=samples,
         slowest=[(r['name'], r['secs'], r['backend']) for r in sorted(results, key=lambda r: -r['secs'])[:6]],
-        explanation=info.get('explanation', ''),
+        explanation=(info.get('explanation', '') + ' | U = unbounded obligations (counted in obligations/discharged); B = bounded-in-shape symbolic obligations (all real values, shapes enumerated; counted in bounded_checks only)'),
         violations=vio_records,
     )
     ev = dict(property_id=prop, tier=tier, seed=int(seed), level=level, coverage=cov,
@@ -293,6 +335,15 @@ def finish(prop, tier, seed, results, task_secs, t_start):
           f'covers={len(covers)} known={len(known_hits)} violations={len(violations)} '
           f'undecided={len(undecided)} errors={len(errors)} wall={time.time() - t_start:.1f}s exit={code}')
     return code
+
+
+_FAM = [re.compile(r'@p\d+$'), re.compile(r'csc=\d+'), re.compile(r'#\d+')]
+
+
+def _family(name):
+    for rx in _FAM:
+        name = rx.sub('', name)
+    return name
 
 
 def _short(m):
